@@ -78,7 +78,7 @@ class LitecoinBlockexplorerClient(BaseClient):
         addresslist = self._addresslist_convert(addresslist)
         for a in addresslist:
             res = self.compose_request('address', a.address)
-            balance += int(float(res['balance']) / self.network.denominator)
+            balance += int(round(float(res['balance']) / self.network.denominator))
         return balance
 
     def getutxos(self, address, after_txid='', limit=MAX_TRANSACTIONS):
